@@ -201,23 +201,38 @@ static void upipe_ts_psim_input(struct upipe *upipe, struct uref *uref,
         upipe_ts_psim_flush(upipe);
 
     if (ubase_check(uref_block_get_start(uref))) {
-        if (likely(upipe_ts_psim->acquired)) {
-            /* just remove pointer_field */
-            if (unlikely(!ubase_check(uref_block_resize(uref, 1, -1)))) {
-                uref_free(uref);
-                upipe_ts_psim_flush(upipe);
-                return;
-            }
-        } else {
-            /* jump to the start of the next section */
-            uint8_t pointer_field;
-            if (unlikely(!ubase_check(uref_block_extract(uref, 0, 1, &pointer_field)) ||
-                         !ubase_check(uref_block_resize(uref, 1 + pointer_field, -1)))) {
-                uref_free(uref);
-                return;
-            }
-            upipe_ts_psim_sync_acquired(upipe);
+        uint8_t pointer_field;
+        if (unlikely(!ubase_check(uref_block_extract(uref, 0, 1,
+                                                     &pointer_field)))) {
+            uref_free(uref);
+            upipe_ts_psim_flush(upipe);
+            return;
         }
+
+        if (upipe_ts_psim->next_uref != NULL) {
+            /* the octets before the pointer target end the section in
+             * progress; if they do not (damaged length), drop it and
+             * resynchronize on the pointer */
+            struct uref *head = pointer_field ? uref_dup(uref) : NULL;
+            if (head != NULL &&
+                ubase_check(uref_block_resize(head, 1, pointer_field)))
+                while (upipe_ts_psim_merge(upipe, head, upump_p));
+            uref_free(head);
+            if (upipe_ts_psim->next_uref != NULL) {
+                upipe_warn(upipe, "section does not end at pointer_field");
+                uref_free(upipe_ts_psim->next_uref);
+                upipe_ts_psim->next_uref = NULL;
+            }
+        }
+
+        /* jump to the start of the next section */
+        if (unlikely(!ubase_check(uref_block_resize(uref, 1 + pointer_field,
+                                                    -1)))) {
+            uref_free(uref);
+            upipe_ts_psim_flush(upipe);
+            return;
+        }
+        upipe_ts_psim_sync_acquired(upipe);
         uref_block_delete_start(uref);
 
     } else if (unlikely(upipe_ts_psim->next_uref == NULL)) {
